@@ -77,6 +77,7 @@ fn main() {
         try_family!(scen::bm_scenarios(three));
         try_family!(scen::cat_scenarios(three));
         try_family!(scen::hn_scenarios(three));
+        try_family!(scen::db_scenarios());
         let Some(viols) = viols else { vcore::machinery_failure("unknown scenario in replay file") };
         if viols.is_empty() {
             println!("REPLAY property={prop}: no violation reproduced");
@@ -141,6 +142,7 @@ fn main() {
             run_all(scen::bm_scenarios(false), bound, cap, &mut rep, only);
             run_all(scen::cat_scenarios(false), bound, cap, &mut rep, only);
             run_all(scen::hn_scenarios(false), bound.min(2), cap, &mut rep, only);
+            run_all(scen::db_scenarios(), if tier == Tier::Quick { 1 } else { 2 }, cap, &mut rep, only);
             if three {
                 let b3 = if tier == Tier::Quick { 2 } else { 3 }; // three-thread variants at a lower bound (schedule count grows fast)
                 run_all(scen::lpg_scenarios(true).into_iter().filter(|s| s.threads.len() == 3).collect(), b3, cap, &mut rep, only);
